@@ -51,6 +51,11 @@ pub enum Ev {
     Abandon,
     /// k calls of inc(1) at one instant (one update of +k; the bar's own throttle drops most of the samples)
     Burst(u8),
+    /// update(|s| s.set_pos(p)): the position set through the state handle (a rewind when p is smaller)
+    UpdateSetPos(u64),
+    /// inc_length / dec_length (saturating)
+    IncLen(u64),
+    DecLen(u64),
 }
 
 #[derive(Debug, Clone, Serialize, Deserialize)]
@@ -76,6 +81,8 @@ struct Track {
     abandoned: bool,
     /// steps of a same-instant burst that the estimator may only see together with the next update
     burst_extra: u64,
+    /// the length the history defines (set_length/unset_length, inc_length/dec_length saturating)
+    len: Option<u64>,
 }
 
 /// All point-wise laws at the current (frozen) instant.
@@ -87,6 +94,7 @@ fn check_point(pb: &ProgressBar, tr: &Track, ctx: &str) -> Result<(), Fail> {
         return Ok(()); // only instants strictly after creation / reset are quantified
     }
     ensure!(ps.is_finite() && ps >= 0.0, "finite", "{ctx}: per_sec() = {ps} (must be finite and >= 0)");
+    ensure!(len == tr.len, "length", "{ctx}: the remaining steps are counted against length {len:?}, the history defines {:?}", tr.len);
     if !fin {
         ensure!(
             tr.burst_extra > 0 || ps <= tr.max_rate * (1.0 + 1e-9) + f64::MIN_POSITIVE,
@@ -184,10 +192,26 @@ fn apply(pb: &ProgressBar, ev: &Ev, tr: &mut Track, pos: &mut u64) {
             tr.max_rate = 0.0;
             tr.distinct_rates.clear();
         }
-        Ev::SetLen(l) => match l {
-            Some(l) => pb.set_length(*l),
-            None => pb.unset_length(),
-        },
+        Ev::SetLen(l) => {
+            match l {
+                Some(l) => pb.set_length(*l),
+                None => pb.unset_length(),
+            }
+            tr.len = *l;
+        }
+        Ev::IncLen(d) => {
+            pb.inc_length(*d);
+            tr.len = tr.len.map(|l| l.saturating_add(*d));
+        }
+        Ev::DecLen(d) => {
+            pb.dec_length(*d);
+            tr.len = tr.len.map(|l| l.saturating_sub(*d));
+        }
+        Ev::UpdateSetPos(p) => {
+            *pos = *p;
+            pb.update(|s| s.set_pos(*p));
+            forward(*p, tr);
+        }
         Ev::Finish => {
             pb.finish();
             tr.forward_only = false;
@@ -221,7 +245,7 @@ fn apply(pb: &ProgressBar, ev: &Ev, tr: &mut Track, pos: &mut u64) {
 fn run_laws(c: &LawCase) -> CaseResult {
     let _clk = clock::Armed::new();
     let pb = ProgressBar::with_draw_target(c.len, ProgressDrawTarget::hidden());
-    let mut tr = Track { last_pos: 0, last_t: clock::now_ns(), max_rate: 0.0, reset_t: clock::now_ns(), distinct_rates: vec![], whole_max: 0.0, forward_only: true, abandoned: false, burst_extra: 0 };
+    let mut tr = Track { last_pos: 0, last_t: clock::now_ns(), max_rate: 0.0, reset_t: clock::now_ns(), distinct_rates: vec![], whole_max: 0.0, forward_only: true, abandoned: false, burst_extra: 0, len: c.len };
     let mut pos = 0u64;
     let mut v = Verdict::default();
     let mut updates = 0;
@@ -285,7 +309,7 @@ fn run_laws(c: &LawCase) -> CaseResult {
 /// changed before it. Signature over the *case*: the history after the last reset is not steady.
 fn laws_signature(c: &LawCase) -> Option<&'static str> {
     // (a same-instant burst is seen by the estimator as two samples: its first step and, later, the rest)
-    let ups = c.steps.iter().map(|(_, e)| if matches!(e, Ev::Burst(_)) { 2 } else { usize::from(matches!(e, Ev::Inc(d) if *d > 0) || matches!(e, Ev::SetPos(_))) }).sum::<usize>();
+    let ups = c.steps.iter().map(|(_, e)| if matches!(e, Ev::Burst(_)) { 2 } else { usize::from(matches!(e, Ev::Inc(d) if *d > 0) || matches!(e, Ev::SetPos(_) | Ev::UpdateSetPos(_))) }).sum::<usize>();
     if ups >= 2 && !c.stall.is_empty() {
         Some("stall_after_rate_change")
     } else {
@@ -305,6 +329,9 @@ fn ev_strategy() -> BoxedStrategy<Ev> {
         1 => Just(Ev::Finish),
         1 => Just(Ev::Abandon),
         1 => (11u8..60).prop_map(Ev::Burst),
+        1 => prop_oneof![0u64..1000, any::<u64>().prop_map(|x| x >> 11)].prop_map(Ev::UpdateSetPos),
+        1 => prop_oneof![3 => 0u64..1000, 1 => any::<u64>(), 1 => Just(u64::MAX)].prop_map(Ev::IncLen),
+        1 => prop_oneof![3 => 0u64..1000, 1 => any::<u64>(), 1 => Just(u64::MAX)].prop_map(Ev::DecLen),
     ]
     .boxed()
 }
@@ -561,7 +588,7 @@ fn decode_laws(u: &mut FuzzInput) -> LawCase {
     let n = u.n(40);
     for _ in 0..n {
         let g = gap(u);
-        let ev = match u.n(17) {
+        let ev = match u.n(20) {
             0..=9 => Ev::Inc(match u.n(8) { 0 | 1 => 0, 2..=5 => u.range(1, 100), 6 | 7 => u.range(100, 1_000_000), _ => { let k = u.n(49); u.range(1, 1u64 << k) } }),
             10 => Ev::SetPos(if u.bool() { u.range(0, 1000) } else { u.u64() >> 11 }),
             11 => Ev::Tick,
@@ -570,6 +597,9 @@ fn decode_laws(u: &mut FuzzInput) -> LawCase {
             14 => Ev::Reset,
             15 => Ev::SetLen(if u.n(4) == 0 { None } else { Some(if u.bool() { u.range(0, 10_000) } else { u.u64() }) }),
             16 => Ev::Finish,
+            18 => Ev::UpdateSetPos(if u.bool() { u.range(0, 1000) } else { u.u64() >> 11 }),
+            19 => Ev::IncLen(match u.n(2) { 0 => u.range(0, 1000), 1 => u.u64(), _ => u64::MAX }),
+            20 => Ev::DecLen(match u.n(2) { 0 => u.range(0, 1000), 1 => u.u64(), _ => u64::MAX }),
             _ => if u.bool() { Ev::Abandon } else { Ev::Burst(11 + u.n(40) as u8) },
         };
         steps.push((g, ev));
@@ -659,7 +689,7 @@ pub fn property() -> Property {
         parts: vec![
             Box::new(Gen::<LawCase> {
                 name: "laws",
-                rule: "0-25 (thorough 60) steps of (gap 1 ms..10 days log-uniform, inc/set_position/tick/reset_eta/reset_elapsed/reset/set_length/finish) then 0-8 stall queries; at every instant: per_sec finite >= 0 and <= largest observed rate, eta == remaining/per_sec (0 when finished/no length/no progress), duration == elapsed + eta, per_sec ~ 0 after >= 1 h stall, per_sec non-increasing during the stall; non-trivial = >=3 updates with >=2 distinct gaps, or a reset/rewind",
+                rule: "0-25 (thorough 60) steps of (gap 1 ms..10 days log-uniform, inc/set_position/tick/reset_eta/reset_elapsed/reset/set_length/inc_length/dec_length with boundary deltas/update(set_pos)/finish/abandon/same-instant bursts) then 0-8 stall queries; at every instant: per_sec finite >= 0 and <= largest observed rate, eta == remaining/per_sec (0 when finished/no length/no progress), duration == elapsed + eta against the length the history defines, per_sec ~ 0 after >= 1 h stall, per_sec non-increasing during the stall; non-trivial = >=3 updates with >=2 distinct gaps, or a reset/rewind",
                 strategy: laws_strategy,
                 cases: |t| t.pick(18_000, 1_200_000),
                 run: run_laws,
